@@ -274,10 +274,10 @@ def _pick_tok(t):
 
 
 def _p3(first, k):
-    def body(*ts):
+    def body(t1=None, t2=None, t3=None, t4=None):
         s = TOKENS[first]
-        for t in ts:
-            s = s + _pick_tok(t)
+        for t in (t1, t2, t3, t4)[:k - 1]:
+            s = s + TOKENS[t]
         return lossless(s) or tiles(s)
 
     body.__name__ = "P3_tok_%d_%d" % (first, k)
@@ -286,6 +286,24 @@ def _p3(first, k):
 
 for _first in range(len(TOKENS)):
     for _k, _tier, _T in ((3, "quick", 600), (4, "thorough", 6000)):
-        ob("C09", "P3.tok.k%d.t%02d" % (_k, _first), {"t%d" % j: R(0, len(TOKENS) - 1) for j in range(1, _k)}, tier=_tier, T=_T, funcs=PFUNCS, assumes=[INFER_STUB],
+        ob("C09", "P3.tok.k%d.t%02d" % (_k, _first), {"t%d" % j: R(0, len(TOKENS) - 1) for j in range(1, _k)}, enum=True, tier=_tier, T=_T, funcs=PFUNCS,
            bound="EVERY sequence of %d lexical tokens starting with %r, the others drawn from %r (%d sequences, solver-enumerated): concatenation identity of cst_scanner and cst_parse, line tiling"
                  % (_k, TOKENS[_first], TOKENS, len(TOKENS) ** (_k - 1)))(_p3(_first, _k))
+
+
+# P5: what can FOLLOW a definition header: header x two line-tokens x tail (comments, blank lines, docstrings, decorators, nested definitions, continuations) ------------
+HEADERS = ("def f(a):\n", "def f(\n    a,\n    b=1,\n):\n", "class K(object):\n", "async def f(a):\n", "@dec\ndef f(a):\n", "@dec(1)\nclass K:\n", "if a:\n", "    def m(self):\n")
+LINES = ("    # c\n", "\n", '    """d"""\n', "    x = 1\n", "    pass  # t\n", "    @d\n", "    def g(): pass\n", "# top\n", "    '''m\n    n'''\n", "    y = \\\n        2\n", "        # deep\n",
+         "    z = (1,\n         2)\n")
+TAILS9 = ("", "y = 2\n", "    return a", "\n\n")
+
+
+def after_header(h, l0, l1, t):
+    s = HEADERS[h] + LINES[l0] + LINES[l1] + TAILS9[t]
+    return lossless(s) or tiles(s)
+
+
+for _h in range(len(HEADERS)):
+    ob("C09", "P5.after_header.h%d" % _h, {"h": R(_h, _h), "l0": R(0, len(LINES) - 1), "l1": R(0, len(LINES) - 1), "t": R(0, len(TAILS9) - 1)}, enum=True, T=600, funcs=PFUNCS,
+       bound="the header %r followed by ANY two of the lines %r and ANY of the tails %r (solver-enumerated): concatenation identity of cst_scanner and cst_parse, line tiling"
+             % (HEADERS[_h], LINES, TAILS9))(after_header)
